@@ -671,7 +671,7 @@ func (c *Ctx) wordUses(f *ssa.Function) map[string]int {
 						out["type"] = int(k)
 					}
 				case *ssa.Store:
-					if fa, ok := y.Addr.(*ssa.FieldAddr); ok && fieldOfAddr(fa).Var.Name() == "Refname" {
+					if fa, ok := y.Addr.(*ssa.FieldAddr); ok && vname(fieldOfAddr(fa).Var) == "Refname" {
 						out["refname"] = int(k)
 					}
 				}
@@ -928,13 +928,13 @@ func (c *Ctx) checkKeyMatcher() {
 	EMPTY, HP, LASTDOT, EQ, KEYDOT := `["" == P]`, `strings.HasPrefix(K,P)`, `[46 == P[(len(P) - 1)]]`, `[len(K) == len(P)]`, `[46 == K[len(P)]]`
 	// equivalent spellings of the same conditions (given P != "" and HasPrefix(K,P))
 	renameAtoms(rows, map[string]string{
-		`strings.HasSuffix(P,".")`:  LASTDOT,
-		`["" == K[len(P):]]`:         EQ,
-		`[0 == len(K[len(P):])]`:     EQ,
-		`[len(K[len(P):]) == 0]`:     EQ,
-		`[len(P) == len(K)]`:         EQ,
-		`[0 == len(P)]`:              EMPTY,
-		`[len(P) == 0]`:              EMPTY,
+		`strings.HasSuffix(P,".")`:          LASTDOT,
+		`["" == K[len(P):]]`:                EQ,
+		`[0 == len(K[len(P):])]`:            EQ,
+		`[len(K[len(P):]) == 0]`:            EQ,
+		`[len(P) == len(K)]`:                EQ,
+		`[0 == len(P)]`:                     EMPTY,
+		`[len(P) == 0]`:                     EMPTY,
 		`strings.HasPrefix(K[len(P):],".")`: KEYDOT,
 	})
 	t := checkTable(rows, []string{EMPTY, HP, LASTDOT, EQ, KEYDOT}, func(a map[string]bool) string {
@@ -965,7 +965,7 @@ func (c *Ctx) checkAugment() {
 		n := 0
 		allInstrs(f, func(in ssa.Instruction) {
 			if call, ok := in.(*ssa.Call); ok {
-				if cal := call.Call.StaticCallee(); cal != nil && cal.Name() == "Combine" {
+				if cal := call.Call.StaticCallee(); cal != nil && refName(cal) == "Combine" {
 					n++
 				}
 			}
@@ -982,8 +982,12 @@ func (c *Ctx) checkAugment() {
 	// section key
 	okSection := false
 	allInstrs(aug, func(in ssa.Instruction) {
-		if call, ok := in.(*ssa.Call); ok && call.Call.IsInvoke() && call.Call.Method.Name() == "GetConfig" {
-			if sp, ok := c.resolve(call.Call.Args[0]).(*ssa.Call); ok && calleeQ(&sp.Call) == "fmt.Sprintf" {
+		if call, ok := in.(*ssa.Call); ok {
+			prefix := c.getConfigPrefix(call)
+			if prefix == nil {
+				return
+			}
+			if sp, ok := c.resolve(prefix).(*ssa.Call); ok && calleeQ(&sp.Call) == "fmt.Sprintf" {
 				if f, ok := constStr(sp.Call.Args[0]); ok && f == "refgroup.%s" {
 					okSection = true
 				}
@@ -1106,7 +1110,7 @@ func (c *Ctx) checkAugment() {
 		if !ok {
 			return
 		}
-		if fa, ok := st.Addr.(*ssa.FieldAddr); ok && fieldOfAddr(fa).Var.Name() == "Name" && c.entryKeyLiteralAt(st.Block()) == "name" {
+		if fa, ok := st.Addr.(*ssa.FieldAddr); ok && vname(fieldOfAddr(fa).Var) == "Name" && c.entryKeyLiteralAt(st.Block()) == "name" {
 			if _, p := c.fieldPath(c.resolve(st.Val)); len(p) > 0 && p[len(p)-1] == "Value" {
 				okName = true
 			}
@@ -1166,9 +1170,11 @@ func ruleC15EachGroup(c *Ctx) {
 			continue
 		}
 		allInstrs(f, func(in ssa.Instruction) {
-			if call, ok := in.(*ssa.Call); ok && call.Call.IsInvoke() && call.Call.Method.Name() == "GetConfig" {
-				if s, ok := constStr(call.Call.Args[0]); ok && s == "refgroup" {
-					reader = f
+			if call, ok := in.(*ssa.Call); ok {
+				if prefix := c.getConfigPrefix(call); prefix != nil {
+					if s, ok := constStr(prefix); ok && s == "refgroup" {
+						reader = f
+					}
 				}
 			}
 		})
@@ -1281,7 +1287,7 @@ func (c *Ctx) gitCommandForcedEnv() []string {
 			return
 		}
 		fa, ok := st.Addr.(*ssa.FieldAddr)
-		if !ok || fieldOfAddr(fa).Var.Name() != "Env" {
+		if !ok || vname(fieldOfAddr(fa).Var) != "Env" {
 			return
 		}
 		_, chain := c.appendChain(st.Val, 0)
@@ -1312,7 +1318,7 @@ func (c *Ctx) checkTreeEntryExact() {
 		if st, ok := in.(*ssa.Store); ok {
 			if fa, ok := st.Addr.(*ssa.FieldAddr); ok {
 				fi := fieldOfAddr(fa)
-				if fi.Struct != nil && fi.Struct.Obj().Name() == "TreeEntry" && fi.Var.Name() == "Name" {
+				if fi.Struct != nil && tname(fi.Struct.Obj()) == "TreeEntry" && vname(fi.Var) == "Name" {
 					nameStore = st
 				}
 			}
@@ -1330,7 +1336,7 @@ func (c *Ctx) checkTreeEntryExact() {
 			if u, ok := ret.Results[0].(*ssa.UnOp); ok {
 				if al, ok := u.X.(*ssa.Alloc); ok {
 					for _, r := range *al.Referrers() {
-						if fa, ok := r.(*ssa.FieldAddr); ok && fieldOfAddr(fa).Var.Name() == "Name" {
+						if fa, ok := r.(*ssa.FieldAddr); ok && vname(fieldOfAddr(fa).Var) == "Name" {
 							for _, st := range storesTo(fa) {
 								nameVal = st.Val
 							}
@@ -1609,4 +1615,19 @@ func (c *Ctx) recordAligned(v ssa.Value, cursor *ssa.Phi, depth int) (bool, stri
 		return false, "re-sliced at " + c.pos(x.Pos()) + " at an offset that is not (index of NUL)+1"
 	}
 	return false, fmt.Sprintf("%T", v)
+}
+
+// getConfigPrefix: call lists a gitconfig section, through the Configger
+// interface or on the repository directly; returns the section argument.
+func (c *Ctx) getConfigPrefix(call *ssa.Call) ssa.Value {
+	if call.Call.IsInvoke() {
+		if mname(call.Call.Method) == "GetConfig" && len(call.Call.Args) == 1 {
+			return call.Call.Args[0]
+		}
+		return nil
+	}
+	if get := c.fn("/git", "*Repository", "GetConfig"); get != nil && call.Call.StaticCallee() == get && len(call.Call.Args) == 2 {
+		return call.Call.Args[1]
+	}
+	return nil
 }
